@@ -212,6 +212,22 @@ impl State {
                     (_, None) => self.bad_lines += 1,
                 }
             },
+            // well-formed, but it contains a literal whose VALUE the documentation does not fix (a decimal word beyond
+            // i64): if the crate accepts the input, the operator tree must have the specification's shape - which tokens
+            // are operators, how they nest - with the constants' values left open; rejecting the input is allowed
+            "WFU" => {
+                self.distinct("wfu", case);
+                fn same_shape(a: &NTree, b: &NTree) -> bool {
+                    a.o == b.o && a.n == b.n && a.k.len() == b.k.len() && a.k.iter().zip(&b.k).all(|(x, y)| same_shape(x, y))
+                }
+                if let (Ok(t), Some(want)) = (&built, dec_tree(&case["tree"])) {
+                    let got = normalise(t);
+                    if !same_shape(&got, &want) {
+                        self.fail_key(&check_wf, format!("{src:?}: the shape of the tree differs from the specification's"), case,
+                                      observed.clone(), fk_of(case));
+                    }
+                }
+            },
             "LEXERR" => {
                 self.distinct("lexerr", case);
                 self.sample("LEXERR", json!({"source": src, "observed": observed}));
